@@ -1,7 +1,7 @@
 (** Proofs for the crash family (C09, C10, C11): the boolean oracles decide their
     specifications; refutation witnesses; the structural invariant of the write
     path and its consequences for recovery. *)
-From Coq Require Import List NArith Bool Lia ZifyN ZifyNat ZifyBool.
+From Coq Require Import List NArith Arith Bool Lia ZifyN ZifyNat ZifyBool.
 From NoKV Require Import Model.Fs Model.Recovery Spec.CrashSpec.
 Import ListNotations.
 Local Open Scope N_scope.
@@ -131,3 +131,721 @@ Proof.
   change (get (maint_all [MtFlushAll; MtGc 0 0] s11) 1 <> get s11 1).
   rewrite c11_after, c11_before. discriminate.
 Qed.
+
+
+(** * The structural invariant of the write path *)
+
+
+(** strictly increasing lists of ids *)
+Fixpoint chain (l : list N) : Prop :=
+  match l with
+  | x :: ((y :: _) as l') => x < y /\ chain l'
+  | _ => True
+  end.
+
+Arguments chain : simpl never.
+
+Lemma chain_cons : forall x l, chain (x :: l) <-> (forall y, In y l -> x < y) /\ chain l.
+Proof.
+  intros x l; revert x; induction l as [|y l IH]; intro x.
+  - cbn; split; [intros _; split; [intros y []|exact I]|intros _; exact I].
+  - change (chain (x :: y :: l)) with (x < y /\ chain (y :: l)). rewrite (IH y). split.
+    + intros [Hxy [Hy Hc]]; split; [|split; assumption].
+      intros z [Hz|Hz]; [subst; assumption|]. specialize (Hy z Hz); lia.
+    + intros [Hall [Hy Hc]]; split; [apply Hall; left; reflexivity|split; assumption].
+Qed.
+
+Lemma chain_app : forall l1 l2,
+  chain (l1 ++ l2) <-> chain l1 /\ chain l2 /\ (forall a b, In a l1 -> In b l2 -> a < b).
+Proof.
+  induction l1 as [|x l1 IH]; intro l2.
+  - cbn [app]; split; [intro H; split; [exact I|split; [exact H|intros a b []]]|intros [_ [H _]]; exact H].
+  - cbn [app]. rewrite !chain_cons, IH. split.
+    + intros [Hx [H1 [H2 H12]]]. split; [split; [|exact H1]|split; [exact H2|]].
+      * intros y Hy; apply Hx, in_or_app; left; exact Hy.
+      * intros a b [Ha|Ha] Hb; [subst; apply Hx, in_or_app; right; exact Hb|apply H12; assumption].
+    + intros [[Hx H1] [H2 H12]]. split; [|split; [exact H1|split; [exact H2|]]].
+      * intros y Hy; apply in_app_or in Hy; destruct Hy as [Hy|Hy]; [apply Hx, Hy|apply H12; [left; reflexivity|exact Hy]].
+      * intros a b Ha Hb; apply H12; [right; exact Ha|exact Hb].
+Qed.
+
+(** association-list facts *)
+Section AL.
+  Context {V : Type}.
+  Implicit Types m : list (N * V).
+
+  Lemma fget_app_notin : forall m k v, ~ In k (map fst m) -> fget N.eqb k (m ++ [(k, v)]) = Some v.
+  Proof.
+    induction m as [|[k' v'] m IH]; intros k v Hn; cbn.
+    - rewrite N.eqb_refl; reflexivity.
+    - destruct (k =? k') eqn:E; [apply N.eqb_eq in E; subst; exfalso; apply Hn; left; reflexivity|].
+      apply IH; intro H; apply Hn; right; exact H.
+  Qed.
+
+  Lemma fput_app_notin : forall m k v v', ~ In k (map fst m) -> fput N.eqb k v' (m ++ [(k, v)]) = m ++ [(k, v')].
+  Proof.
+    induction m as [|[k' w] m IH]; intros k v v' Hn; cbn.
+    - rewrite N.eqb_refl; reflexivity.
+    - destruct (k =? k') eqn:E; [apply N.eqb_eq in E; subst; exfalso; apply Hn; left; reflexivity|].
+      f_equal; apply IH; intro H; apply Hn; right; exact H.
+  Qed.
+
+  Lemma fput_new : forall m k v, ~ In k (map fst m) -> fput N.eqb k v m = m ++ [(k, v)].
+  Proof.
+    induction m as [|[k' w] m IH]; intros k v Hn; cbn; [reflexivity|].
+    destruct (k =? k') eqn:E; [apply N.eqb_eq in E; subst; exfalso; apply Hn; left; reflexivity|].
+    f_equal; apply IH; intro H; apply Hn; right; exact H.
+  Qed.
+
+  Lemma fdel_notin : forall m k, ~ In k (map fst m) -> fdel N.eqb k m = m.
+  Proof.
+    induction m as [|[k' w] m IH]; intros k Hn; cbn; [reflexivity|].
+    destruct (k =? k') eqn:E; [apply N.eqb_eq in E; subst; exfalso; apply Hn; left; reflexivity|].
+    f_equal; apply IH; intro H; apply Hn; right; exact H.
+  Qed.
+End AL.
+
+
+Definition pending (t : rt) : list (N * list rec) := if t_fl t =? 3 then tl (t_imm t) else t_imm t.
+Definition ids (l : list (N * list rec)) : list N := map fst l.
+Definition recs (l : list (N * list rec)) : list rec := concat (map snd l).
+Definition inprog (t : rt) : list (N * option (list rec)) :=
+  match t_imm t with
+  | (s, rs) :: _ => if t_fl t =? 1 then [(s, None)] else if t_fl t =? 2 then [(s, Some rs)] else []
+  | [] => []
+  end.
+Definition last_id (l : list (N * list rec)) : N := last (ids l) 0.
+Definition done_files (l : list (N * list rec)) : list (N * option (list rec)) := map (fun c => (fst c, Some (snd c))) l.
+
+Definition stage_ok (t : rt) : Prop :=
+  (t_fl t = 0) \/
+  ((t_fl t = 1 \/ t_fl t = 2) /\ exists s r rs imm', t_imm t = (s, r :: rs) :: imm') \/
+  (t_fl t = 3 /\ exists s r rs imm' done', t_imm t = (s, r :: rs) :: imm' /\ t_done t = done' ++ [(s, r :: rs)]).
+
+Record Inv (d : disk) (t : rt) : Prop := mkInv {
+  i_wal : exists fl, d_wal d = t_imm t ++ [(t_act t, fl)] /\ fl ++ t_buf t = t_mem t;
+  i_chain : chain (0 :: ids (t_done t) ++ ids (pending t) ++ [t_act t]);
+  i_max : t_act t <= t_maxfid t;
+  i_stage : stage_ok t;
+  i_log : t_log t = recs (t_done t) ++ recs (pending t) ++ t_mem t;
+  i_lp : m_logseg (mapply_all (d_man d)) = last_id (t_done t);
+  i_ssts : forall x, mem_b x (m_ssts (mapply_all (d_man d))) = mem_b x (ids (t_done t));
+  i_sst : d_sst d = done_files (t_done t) ++ inprog t
+}.
+
+Lemma mapply_all_app : forall l es, mapply_all (l ++ es) = fold_left mapply es (mapply_all l).
+Proof. intros; unfold mapply_all; apply fold_left_app. Qed.
+
+Lemma recs_app : forall a b, recs (a ++ b) = recs a ++ recs b.
+Proof. intros; unfold recs; rewrite map_app, concat_app; reflexivity. Qed.
+
+Lemma ids_app : forall a b, ids (a ++ b) = ids a ++ ids b.
+Proof. intros; unfold ids; apply map_app. Qed.
+
+Lemma mem_b_app : forall x a b, mem_b x (a ++ b) = mem_b x a || mem_b x b.
+Proof. intros; unfold mem_b; apply existsb_app. Qed.
+
+Lemma mem_b_In : forall x l, mem_b x l = true <-> In x l.
+Proof.
+  intros x l; unfold mem_b; rewrite existsb_exists; split.
+  - intros [y [Hy E]]; apply N.eqb_eq in E; subst; exact Hy.
+  - intro H; exists x; split; [exact H|apply N.eqb_refl].
+Qed.
+
+(** ids of the imm list are all below the active id, and pairwise distinct *)
+Lemma imm_ids_facts : forall d t, Inv d t ->
+  (forall x, In x (ids (t_imm t)) -> x < t_act t) /\
+  (forall x, In x (ids (t_done t)) -> x < t_act t).
+Proof.
+  intros d t I. pose proof (i_chain _ _ I) as C. pose proof (i_stage _ _ I) as S.
+  apply chain_cons in C; destruct C as [_ C].
+  apply chain_app in C; destruct C as [Cd [Cr Hdr]].
+  apply chain_app in Cr; destruct Cr as [Cp [_ Hpa]].
+  assert (Hd : forall x, In x (ids (t_done t)) -> x < t_act t).
+  { intros x Hx; apply Hdr; [exact Hx|apply in_or_app; right; left; reflexivity]. }
+  split; [|exact Hd].
+  intros x Hx. unfold pending in *.
+  destruct (t_fl t =? 3) eqn:E.
+  - apply N.eqb_eq in E. destruct S as [S|[[[S|S] _]|[_ S]]]; try lia.
+    destruct S as [s [r [rs [imm' [done' [Hi Hdn]]]]]]. rewrite Hi in Hx, Hpa; cbn in Hx, Hpa.
+    destruct Hx as [Hx|Hx].
+    + subst x. apply Hd. rewrite Hdn, ids_app. apply in_or_app; right; left; reflexivity.
+    + apply Hpa; [exact Hx|left; reflexivity].
+  - apply Hpa; [exact Hx|left; reflexivity].
+Qed.
+
+
+Lemma act_notin_imm : forall d t, Inv d t -> ~ In (t_act t) (map fst (t_imm t)).
+Proof.
+  intros d t I H. destruct (imm_ids_facts _ _ I) as [Hi _]. specialize (Hi _ H). lia.
+Qed.
+
+(** flushing the first k buffered records *)
+Lemma inv_flush_k : forall k d t, Inv d t ->
+  Inv (fst (fst (flush_k k d t))) (snd (fst (flush_k k d t))).
+Proof.
+  intros k d t I. destruct k as [|k]; [exact I|].
+  cbn [flush_k fst snd].
+  pose proof (act_notin_imm _ _ I) as Hn.
+  destruct I as [[fl [Hw Hm]] C M SG L P SS ST].
+  constructor; cbn; try assumption.
+  exists (fl ++ firstn (S k) (t_buf t)). split.
+  - unfold fappend. rewrite Hw, (fget_app_notin _ _ _ Hn). apply fput_app_notin, Hn.
+  - rewrite <- app_assoc, firstn_skipn. exact Hm.
+Qed.
+
+Lemma inv_vlog_only : forall d t v, Inv d t -> Inv (set_vlog d v) t.
+Proof. intros d t v [W C M SG L P SS ST]; constructor; cbn; assumption. Qed.
+
+Lemma inv_with_vact : forall d t v, Inv d t -> Inv d (with_vact t v).
+Proof. intros d t v [W C M SG L P SS ST]; constructor; cbn; assumption. Qed.
+
+Lemma inv_with_ptrs : forall d t v, Inv d t -> Inv d (with_ptrs t v).
+Proof. intros d t v [W C M SG L P SS ST]; constructor; cbn; assumption. Qed.
+
+Lemma inv_with_logged : forall d t v, Inv d t -> Inv d (with_logged t v).
+Proof. intros d t v [W C M SG L P SS ST]; constructor; cbn; assumption. Qed.
+
+(** manifest edits that touch neither the table set nor the log pointer *)
+Definition neutral (v v' : mver) : Prop :=
+  m_logseg v' = m_logseg v /\ forall x, mem_b x (m_ssts v') = mem_b x (m_ssts v).
+
+Lemma inv_man_neutral : forall d t es, Inv d t ->
+  neutral (mapply_all (d_man d)) (fold_left mapply es (mapply_all (d_man d))) ->
+  Inv (set_man d (d_man d ++ es)) t.
+Proof.
+  intros d t es [W C M SG L P SS ST] [N1 N2]; constructor; cbn [set_man d_wal d_man d_sst d_vlog]; try assumption.
+  - rewrite mapply_all_app, N1; exact P.
+  - intro x; rewrite mapply_all_app, N2; apply SS.
+Qed.
+
+Lemma mem_b_remove_add : forall x f l, mem_b f l = true -> mem_b x (remove_first f l ++ [f]) = mem_b x l.
+Proof.
+  unfold mem_b. intros x f l; induction l as [|y l IH]; intro H; [discriminate|].
+  cbn [remove_first]. destruct (f =? y) eqn:E.
+  - apply N.eqb_eq in E; subst y. rewrite existsb_app. cbn [existsb]. rewrite orb_false_r. apply orb_comm.
+  - cbn [existsb] in H. rewrite E in H. cbn [orb] in H.
+    change ((y :: remove_first f l) ++ [f]) with (y :: (remove_first f l ++ [f])).
+    cbn [existsb]. rewrite (IH H). reflexivity.
+Qed.
+
+Lemma move_neutral : forall fids lvl v0 v,
+  neutral v0 v -> neutral v0 (fold_left mapply (move_edits v0 fids lvl) v).
+Proof.
+  intros fids lvl v0; unfold move_edits. induction fids as [|f fids IH]; intros v Hn; [exact Hn|].
+  cbn [flat_map]. rewrite fold_left_app. apply IH.
+  destruct (mem_b f (m_ssts v0)) eqn:E; [|exact Hn].
+  destruct Hn as [N1 N2]. unfold neutral. cbn [fold_left mapply m_logseg m_ssts]. split; [exact N1|].
+  intro x. rewrite mem_b_remove_add; [apply N2|]. rewrite N2; exact E.
+Qed.
+
+
+Lemma pending_cases : forall t, stage_ok t ->
+  (t_fl t <> 3 /\ pending t = t_imm t) \/
+  (t_fl t = 3 /\ exists s r rs imm' done', t_imm t = (s, r :: rs) :: imm' /\ t_done t = done' ++ [(s, r :: rs)] /\ pending t = imm').
+Proof.
+  intros t S. unfold pending. destruct S as [S|[[[S|S] _]|[S H]]]; try (left; rewrite S; cbn; split; [lia|reflexivity]).
+  right. split; [exact S|]. destruct H as [s [r [rs [imm' [done' [Hi Hd]]]]]].
+  exists s, r, rs, imm', done'. rewrite S, Hi. cbn. auto.
+Qed.
+
+(** MBuf *)
+Lemma inv_buf : forall d t r p s',
+  Inv d t ->
+  Inv d {| t_act := t_act t; t_buf := t_buf t ++ [r]; t_mem := t_mem t ++ [r]; t_imm := t_imm t; t_fl := t_fl t;
+           t_maxfid := t_maxfid t; t_vact := t_vact t; t_logged := t_logged t; t_ptrs := p; t_seq := s';
+           t_acked := t_acked t; t_log := t_log t ++ [r]; t_done := t_done t; t_ackpos := t_ackpos t |}.
+Proof.
+  intros d t r p s' [[fl [Hw Hm]] C M SG L P SS ST].
+  constructor; cbn [t_act t_buf t_mem t_imm t_fl t_maxfid t_log t_done]; try assumption.
+  - exists fl; split; [exact Hw|]. rewrite app_assoc, Hm; reflexivity.
+  - rewrite L. unfold pending; cbn [t_fl t_imm]. rewrite !app_assoc. reflexivity.
+Qed.
+
+(** MAck and the bookkeeping part of MSyncAck *)
+Lemma inv_ack : forall d t p a k,
+  Inv d t ->
+  Inv d {| t_act := t_act t; t_buf := t_buf t; t_mem := t_mem t; t_imm := t_imm t; t_fl := t_fl t;
+           t_maxfid := t_maxfid t; t_vact := t_vact t; t_logged := t_logged t; t_ptrs := p; t_seq := t_seq t;
+           t_acked := a; t_log := t_log t; t_done := t_done t; t_ackpos := k |}.
+Proof. intros d t p a k [W C M SG L P SS ST]; constructor; cbn; assumption. Qed.
+
+(** MNewSeg *)
+Lemma inv_newseg : forall d t, Inv d t -> t_buf t = [] ->
+  Inv (set_wal d (fput N.eqb (t_maxfid t + 1) [] (d_wal d)))
+      {| t_act := t_maxfid t + 1; t_buf := []; t_mem := []; t_imm := t_imm t ++ [(t_act t, t_mem t)]; t_fl := t_fl t;
+         t_maxfid := t_maxfid t + 1; t_vact := t_vact t; t_logged := t_logged t; t_ptrs := t_ptrs t; t_seq := t_seq t;
+         t_acked := t_acked t; t_log := t_log t; t_done := t_done t; t_ackpos := t_ackpos t |}.
+Proof.
+  intros d t I Hb. destruct (imm_ids_facts _ _ I) as [Himm Hdone].
+  destruct I as [[fl [Hw Hm]] C M SG L P SS ST].
+  rewrite Hb, app_nil_r in Hm. subst fl.
+  assert (Hpend : pending {| t_act := t_maxfid t + 1; t_buf := []; t_mem := []; t_imm := t_imm t ++ [(t_act t, t_mem t)]; t_fl := t_fl t;
+         t_maxfid := t_maxfid t + 1; t_vact := t_vact t; t_logged := t_logged t; t_ptrs := t_ptrs t; t_seq := t_seq t;
+         t_acked := t_acked t; t_log := t_log t; t_done := t_done t; t_ackpos := t_ackpos t |} = pending t ++ [(t_act t, t_mem t)]).
+  { unfold pending; cbn [t_fl t_imm]. destruct (pending_cases t SG) as [[Hne _]|[He [s [r [rs [imm' [done' [Hi _]]]]]]]].
+    - destruct (t_fl t =? 3) eqn:E; [apply N.eqb_eq in E; lia|reflexivity].
+    - rewrite He, Hi; reflexivity. }
+  constructor; cbn [t_act t_buf t_mem t_imm t_fl t_maxfid t_log t_done set_wal d_wal d_man d_sst d_vlog]; try assumption.
+  - exists []. split; [|reflexivity].
+    rewrite Hw, fput_new.
+    + rewrite <- app_assoc; reflexivity.
+    + rewrite map_app; cbn [map fst]. intro H; apply in_app_or in H; destruct H as [H|[H|[]]].
+      * specialize (Himm _ H); lia.
+      * lia.
+  - rewrite Hpend, ids_app. cbn [ids map fst].
+    replace (0 :: ids (t_done t) ++ (ids (pending t) ++ [t_act t]) ++ [t_maxfid t + 1])
+      with ((0 :: ids (t_done t) ++ ids (pending t) ++ [t_act t]) ++ [t_maxfid t + 1])
+      by (cbn [app]; rewrite <- !app_assoc; reflexivity).
+    apply (proj2 (chain_app _ _)). split; [exact C|split; [exact I|]].
+    intros a b Ha [Hb'|[]]; subst b.
+    cbn [app] in Ha. destruct Ha as [Ha|Ha]; [lia|].
+    apply in_app_or in Ha; destruct Ha as [Ha|Ha].
+    + specialize (Hdone _ Ha); lia.
+    + apply in_app_or in Ha; destruct Ha as [Ha|[Ha|[]]]; [|lia].
+      assert (In a (ids (t_imm t))).
+      { unfold pending in Ha. destruct (t_fl t =? 3); [|exact Ha]. destruct (t_imm t); [destruct Ha|right; exact Ha]. }
+      specialize (Himm _ H); lia.
+  - lia.
+  - destruct SG as [SG|[[SG [s [r [rs [imm' Hi]]]]]|[SG [s [r [rs [imm' [done' [Hi Hd]]]]]]]]].
+    + left; exact SG.
+    + right; left; split; [exact SG|]. exists s, r, rs, (imm' ++ [(t_act t, t_mem t)]). rewrite Hi; reflexivity.
+    + right; right; split; [exact SG|]. exists s, r, rs, (imm' ++ [(t_act t, t_mem t)]), done'. rewrite Hi; split; [reflexivity|exact Hd].
+  - rewrite Hpend, recs_app, L.
+    assert (E : recs [(t_act t, t_mem t)] = t_mem t) by (unfold recs; cbn [map snd concat]; apply app_nil_r).
+    rewrite E, app_nil_r. reflexivity.
+  - rewrite ST. f_equal. unfold inprog; cbn [t_imm t_fl].
+    destruct (t_imm t) as [|[s rs] imm'] eqn:Ei; cbn [app]; [|reflexivity].
+    destruct SG as [SG|[[SG [s [r [rs [imm' Hi]]]]]|[SG [s [r [rs [imm' [done' [Hi Hd]]]]]]]]]; try congruence.
+    rewrite SG; reflexivity.
+Qed.
+
+
+Lemma done_files_keys : forall l, map fst (done_files l) = ids l.
+Proof. intro l; unfold done_files, ids; rewrite map_map; reflexivity. Qed.
+
+(** the head of the sealed list, while it is not yet in the manifest, is not a done id *)
+Lemma head_notin_done : forall d t s rs imm', Inv d t -> t_fl t <> 3 -> t_imm t = (s, rs) :: imm' ->
+  ~ In s (ids (t_done t)).
+Proof.
+  intros d t s rs imm' I Hne Hi Hin. pose proof (i_chain _ _ I) as C.
+  apply chain_cons in C; destruct C as [_ C]. apply chain_app in C; destruct C as [_ [_ H]].
+  assert (Hp : pending t = t_imm t).
+  { unfold pending. destruct (t_fl t =? 3) eqn:E; [apply N.eqb_eq in E; contradiction|reflexivity]. }
+  specialize (H s s Hin). rewrite Hp, Hi in H. cbn in H. specialize (H (or_introl eq_refl)). lia.
+Qed.
+
+Lemma inv_sst_create : forall d t s r rs imm', Inv d t -> t_fl t = 0 -> t_imm t = (s, r :: rs) :: imm' ->
+  Inv (set_sst d (fput N.eqb s None (d_sst d))) (with_imm t (t_imm t) 1).
+Proof.
+  intros d t s r rs imm' I H0 Hi. pose proof (head_notin_done _ _ _ _ _ I ltac:(lia) Hi) as Hn.
+  destruct I as [W C M SG L P SS ST].
+  assert (Hp : pending (with_imm t (t_imm t) 1) = pending t) by (unfold pending; cbn; rewrite H0; reflexivity).
+  constructor; cbn [with_imm set_sst t_act t_buf t_mem t_imm t_fl t_maxfid t_log t_done d_wal d_man d_sst d_vlog]; try assumption.
+  - rewrite Hp; exact C.
+  - right; left; split; [left; reflexivity|]. exists s, r, rs, imm'; exact Hi.
+  - rewrite Hp; exact L.
+  - rewrite ST. unfold inprog; cbn [with_imm t_imm t_fl]. rewrite Hi, H0. cbn [N.eqb app].
+    rewrite app_nil_r. apply fput_new. rewrite done_files_keys. exact Hn.
+Qed.
+
+Lemma inv_sst_fill : forall d t s r rs imm', Inv d t -> t_fl t = 1 -> t_imm t = (s, r :: rs) :: imm' ->
+  Inv (set_sst d (fput N.eqb s (Some (r :: rs)) (d_sst d))) (with_imm t (t_imm t) 2).
+Proof.
+  intros d t s r rs imm' I H1 Hi. pose proof (head_notin_done _ _ _ _ _ I ltac:(lia) Hi) as Hn.
+  destruct I as [W C M SG L P SS ST].
+  assert (Hp : pending (with_imm t (t_imm t) 2) = pending t) by (unfold pending; cbn; rewrite H1; reflexivity).
+  constructor; cbn [with_imm set_sst t_act t_buf t_mem t_imm t_fl t_maxfid t_log t_done d_wal d_man d_sst d_vlog]; try assumption.
+  - rewrite Hp; exact C.
+  - right; left; split; [right; reflexivity|]. exists s, r, rs, imm'; exact Hi.
+  - rewrite Hp; exact L.
+  - rewrite ST. unfold inprog; cbn [with_imm t_imm t_fl]. rewrite Hi, H1. cbn [N.eqb Pos.eqb app].
+    apply fput_app_notin. rewrite done_files_keys. exact Hn.
+Qed.
+
+Lemma last_id_app : forall l s rs, last_id (l ++ [(s, rs)]) = s.
+Proof. intros; unfold last_id; rewrite ids_app; cbn [ids map fst]. apply last_last. Qed.
+
+Lemma inv_flush_man : forall d t s r rs imm', Inv d t -> t_fl t = 2 -> t_imm t = (s, r :: rs) :: imm' ->
+  Inv (set_man d (d_man d ++ [AF s 0; LP s]))
+      {| t_act := t_act t; t_buf := t_buf t; t_mem := t_mem t; t_imm := t_imm t; t_fl := 3;
+         t_maxfid := t_maxfid t; t_vact := t_vact t; t_logged := t_logged t; t_ptrs := t_ptrs t; t_seq := t_seq t;
+         t_acked := t_acked t; t_log := t_log t; t_done := t_done t ++ [(s, r :: rs)]; t_ackpos := t_ackpos t |}.
+Proof.
+  intros d t s r rs imm' I H2 Hi. destruct I as [W C M SG L P SS ST].
+  assert (Hp0 : pending t = (s, r :: rs) :: imm') by (unfold pending; rewrite H2, Hi; reflexivity).
+  constructor; cbn [set_man t_act t_buf t_mem t_imm t_fl t_maxfid t_log t_done d_wal d_man d_sst d_vlog]; try assumption.
+  - unfold pending; cbn [t_fl t_imm N.eqb Pos.eqb]. rewrite Hi; cbn [tl].
+    rewrite ids_app. cbn [ids map fst]. rewrite Hp0 in C. cbn [ids map fst] in C.
+    rewrite <- app_assoc. exact C.
+  - right; right; split; [reflexivity|]. exists s, r, rs, imm', (t_done t). split; [exact Hi|reflexivity].
+  - unfold pending; cbn [t_fl t_imm N.eqb Pos.eqb]. rewrite Hi; cbn [tl].
+    rewrite L, Hp0, recs_app.
+    change (recs ((s, r :: rs) :: imm')) with ((r :: rs) ++ recs imm').
+    change (recs [(s, r :: rs)]) with ((r :: rs) ++ []).
+    rewrite app_nil_r, <- !app_assoc. reflexivity.
+  - rewrite mapply_all_app. cbn [fold_left mapply m_logseg]. rewrite last_id_app; reflexivity.
+  - intro x. rewrite mapply_all_app. cbn [fold_left mapply m_ssts]. rewrite ids_app, !mem_b_app, SS. reflexivity.
+  - rewrite ST. unfold inprog, done_files; cbn [t_imm t_fl]. rewrite Hi, H2. cbn [N.eqb Pos.eqb].
+    rewrite map_app. cbn [map fst snd]. rewrite app_nil_r. reflexivity.
+Qed.
+
+Lemma chain_drop_mid : forall a x b, chain (a ++ x :: b) -> chain (a ++ b).
+Proof.
+  intros a x b H. apply chain_app in H. destruct H as [Ha [Hb Hab]].
+  apply chain_cons in Hb. destruct Hb as [Hxb Hb].
+  apply (proj2 (chain_app _ _)). split; [exact Ha|split; [exact Hb|]].
+  intros p q Hp Hq; apply Hab; [exact Hp|right; exact Hq].
+Qed.
+
+Lemma inv_wal_rm : forall d t s rs imm', Inv d t -> t_imm t = (s, rs) :: imm' ->
+  (t_fl t = 3 \/ (t_fl t = 0 /\ rs = [])) ->
+  Inv (set_wal d (fdel N.eqb s (d_wal d))) (with_imm t imm' 0).
+Proof.
+  intros d t s rs imm' I Hi Hc. pose proof (i_chain _ _ I) as C0.
+  destruct I as [[fl [Hw Hm]] C M SG L P SS ST].
+  assert (Hp : pending (with_imm t imm' 0) = imm') by reflexivity.
+  assert (Hnotin : ~ In s (map fst (imm' ++ [(t_act t, fl)]))).
+  { (* ids of the sealed list are strictly increasing and below the active id *)
+    destruct Hc as [H3|[H0 _]].
+    - destruct SG as [SG|[[[SG|SG] _]|[_ [s0 [r0 [rs0 [i0 [dn [Hi0 Hd]]]]]]]]]; try lia.
+      rewrite Hi in Hi0; inversion Hi0; subst s0 rs i0.
+      unfold pending in C. rewrite H3, Hi in C. cbn [N.eqb Pos.eqb tl] in C.
+      rewrite Hd, ids_app in C. cbn [ids map fst] in C.
+      apply chain_cons in C; destruct C as [_ C]. rewrite <- app_assoc in C. apply chain_app in C. destruct C as [_ [C _]].
+      cbn [app] in C. apply chain_cons in C. destruct C as [C _].
+      intro H. rewrite map_app in H. specialize (C s H). lia.
+    - unfold pending in C. rewrite H0, Hi in C. cbn [N.eqb] in C. cbn [ids map fst] in C.
+      apply chain_cons in C; destruct C as [_ C]. apply chain_app in C. destruct C as [_ [C _]].
+      cbn [app] in C. apply chain_cons in C. destruct C as [C _].
+      intro H. rewrite map_app in H. specialize (C s H). lia. }
+  constructor; cbn [with_imm set_wal t_act t_buf t_mem t_imm t_fl t_maxfid t_log t_done d_wal d_man d_sst d_vlog]; try assumption.
+  - exists fl. split; [|exact Hm]. rewrite Hw, Hi. cbn [app fdel]. rewrite N.eqb_refl. apply fdel_notin, Hnotin.
+  - rewrite Hp. destruct Hc as [H3|[H0 _]].
+    + unfold pending in C. rewrite H3, Hi in C. exact C.
+    + unfold pending in C. rewrite H0, Hi in C. cbn [N.eqb ids map fst] in C.
+      rewrite app_comm_cons in C. apply chain_drop_mid in C. exact C.
+  - left; reflexivity.
+  - rewrite Hp, L. destruct Hc as [H3|[H0 Hr]].
+    + unfold pending. rewrite H3, Hi. reflexivity.
+    + unfold pending. rewrite H0, Hi. subst rs. reflexivity.
+  - rewrite ST. f_equal. unfold inprog. cbn [with_imm t_imm t_fl]. rewrite Hi.
+    destruct Hc as [H3|[H0 _]]; [rewrite H3|rewrite H0]; cbn [N.eqb Pos.eqb]; destruct imm' as [|[? ?] ?]; reflexivity.
+Qed.
+
+
+Definition InvS (st : mstate) : Prop := Inv (fst st) (snd st).
+
+Lemma neutral_refl : forall v, neutral v v.
+Proof. intro v; split; [reflexivity|intro; reflexivity]. Qed.
+
+Lemma exec_inv : forall st m, InvS st -> InvS (fst (exec st m)).
+Proof.
+  intros [d t] m I. unfold InvS in *. cbn [fst snd] in I.
+  destruct m; cbn [exec].
+  - (* MVRot *) cbn [fst snd]. apply inv_vlog_only, inv_with_vact, I.
+  - (* MVApp *) cbn [fst snd]. apply inv_vlog_only, inv_with_ptrs, I.
+  - (* MHead *)
+    destruct (match fget N.eqb b (t_logged t) with Some g => g =? vact_of t b | None => false end); cbn [fst snd]; [exact I|].
+    apply inv_man_neutral; [apply inv_with_logged, I|]. cbn [fold_left mapply]. split; [reflexivity|intro; reflexivity].
+  - (* MFlushBuf *) apply inv_flush_k, I.
+  - (* MNewSeg *)
+    destruct (t_buf t) eqn:Eb; cbn [fst snd]; [|exact I].
+    pose proof (inv_newseg d t I Eb) as H. exact H.
+  - (* MBuf *)
+    destruct (if e_loc e =? 0 then (None, t_ptrs t) else take_ptr (e_key e, e_vid e) (t_ptrs t)) as [p ptrs'].
+    cbn [fst snd]. apply inv_buf, I.
+  - (* MSpill *) apply inv_flush_k, I.
+  - (* MSync *) apply inv_flush_k, I.
+  - (* MAck *) cbn [fst snd]. apply inv_ack, I.
+  - (* MSyncAck *)
+    pose proof (inv_flush_k (length (t_buf t)) d t I) as H.
+    destruct (flush_k (length (t_buf t)) d t) as [[d' t'] oe]. cbn [fst snd] in *. apply inv_ack, H.
+  - (* MSstCreate *)
+    destruct (t_imm t) as [|[s [|r rs]] imm'] eqn:Ei; cbn [fst snd]; try exact I.
+    destruct (t_fl t) as [|p] eqn:Ef; cbn [fst snd]; [|exact I].
+    rewrite <- Ei. eapply inv_sst_create; eauto.
+  - (* MSstFill *)
+    destruct (t_imm t) as [|[s [|r rs]] imm'] eqn:Ei; cbn [fst snd]; try exact I.
+    destruct (t_fl t) as [|[p|p|]] eqn:Ef; cbn [fst snd]; try exact I.
+    rewrite <- Ei. eapply inv_sst_fill; eauto.
+  - (* MFlushMan *)
+    destruct (t_imm t) as [|[s [|r rs]] imm'] eqn:Ei; cbn [fst snd]; try exact I.
+    destruct (t_fl t) as [|[p|[p|p|]|]] eqn:Ef; cbn [fst snd]; try exact I.
+    rewrite <- Ei. eapply inv_flush_man; eauto.
+  - (* MFlushWalRm *)
+    destruct (t_imm t) as [|[s [|r rs]] imm'] eqn:Ei; cbn [fst snd]; try exact I.
+    + destruct (t_fl t) as [|p] eqn:Ef; cbn [fst snd]; [|exact I].
+      eapply inv_wal_rm; eauto.
+    + destruct (t_fl t) as [|[[p|p|]|p|]] eqn:Ef; cbn [fst snd]; try exact I.
+      eapply inv_wal_rm; eauto.
+  - (* MMove *) cbn [fst snd]. apply inv_man_neutral; [exact I|]. apply move_neutral, neutral_refl.
+  - (* MVlogDel *) cbn [fst snd]. apply inv_man_neutral; [exact I|]. cbn [fold_left mapply]. split; [reflexivity|intro; reflexivity].
+  - (* MVlogRm *) cbn [fst snd]. apply inv_vlog_only, I.
+Qed.
+
+Lemma init_inv : forall seg nb, 0 < seg -> InvS (init seg nb).
+Proof.
+  intros seg nb Hs. unfold InvS, init; cbn [fst snd]. constructor; cbn.
+  - exists []; split; reflexivity.
+  - unfold chain; cbn. split; [exact Hs|exact I].
+  - lia.
+  - left; reflexivity.
+  - reflexivity.
+  - reflexivity.
+  - intro; reflexivity.
+  - reflexivity.
+Qed.
+
+Lemma exec_all_inv : forall ms st, InvS st -> InvS (exec_all ms st).
+Proof.
+  induction ms as [|m ms IH]; intros st I; [exact I|].
+  unfold exec_all; cbn [fold_left]. apply IH, exec_inv, I.
+Qed.
+
+Lemma state_at_inv : forall p ms seg nb, 0 < seg -> InvS (state_at p ms (init seg nb)).
+Proof. intros; unfold state_at; apply exec_all_inv, init_inv; assumption. Qed.
+
+
+(** the records recovery loads, oldest source first *)
+Definition recovered_log (s : rstore) : list rec := concat (rev (s_src s)).
+
+Lemma concat_rev_src : forall (W S : list (list rec)),
+  concat (rev ((match rev W with [] => [[]] | _ => rev W end) ++ rev S)) = concat S ++ concat W.
+Proof.
+  intros W S. rewrite rev_app_distr, rev_involutive, concat_app. f_equal.
+  destruct (rev W) eqn:E.
+  - assert (W = []) by (rewrite <- (rev_involutive W), E; reflexivity). subst W. reflexivity.
+  - rewrite <- E, rev_involutive. reflexivity.
+Qed.
+
+Lemma last_cons_default : forall (l : list N) x d, last (x :: l) d = last l x.
+Proof.
+  induction l as [|y l IH]; intros x d; [reflexivity|].
+  change (last (x :: y :: l) d) with (last (y :: l) d). rewrite (IH y d), (IH y x). reflexivity.
+Qed.
+
+Lemma chain_last_lt : forall a b z x, chain (z :: a ++ b) -> In x b -> last a z < x.
+Proof.
+  induction a as [|y a IH]; intros b z x C Hx.
+  - cbn [app last]. apply chain_cons in C. destruct C as [C _]. apply C, Hx.
+  - cbn [app] in C. apply chain_cons in C. destruct C as [_ C].
+    rewrite last_cons_default.
+    apply (IH b y x C Hx).
+Qed.
+
+Section Chunks.
+  Variable lp : N.
+  Definition wchunk (sr : N * list rec) : list (list rec) :=
+    if lp <? fst sr then match snd sr with [] => [] | rs => [rs] end else [].
+
+  Lemma concat_wchunk_live : forall l, (forall x, In x (ids l) -> lp < x) -> concat (flat_map wchunk l) = recs l.
+  Proof.
+    induction l as [|[s rs] l IH]; intro H; [reflexivity|].
+    cbn [flat_map]. rewrite concat_app, IH by (intros x Hx; apply H; right; exact Hx).
+    unfold wchunk; cbn [fst snd]. assert (E : lp <? s = true) by (apply N.ltb_lt, H; left; reflexivity).
+    rewrite E. change (recs ((s, rs) :: l)) with (rs ++ recs l). destruct rs; cbn; [reflexivity|rewrite app_nil_r; reflexivity].
+  Qed.
+End Chunks.
+
+Lemma sst_chunks_done : forall dn v extra,
+  (forall x, In x (ids dn) -> mem_b x (m_ssts v) = true) ->
+  (forall x, In x extra -> match snd x with Some _ => mem_b (fst x) (m_ssts v) = false | None => True end) ->
+  flat_map (fun x => match snd x with
+                     | Some rs => if mem_b (fst x) (m_ssts v) then [rs] else []
+                     | None => []
+                     end) (done_files dn ++ extra) = map snd dn.
+Proof.
+  intros dn v extra Hd He. rewrite flat_map_app.
+  assert (E2 : flat_map (fun x => match snd x with
+                     | Some rs => if mem_b (fst x) (m_ssts v) then [rs] else []
+                     | None => [] end) extra = []).
+  { induction extra as [|[k [rs|]] ex IH]; [reflexivity| |].
+    - cbn [flat_map fst snd]. pose proof (He (k, Some rs) (or_introl eq_refl)) as H; cbn [fst snd] in H. rewrite H. cbn [app].
+      apply IH; intros x Hx; apply He; right; exact Hx.
+    - cbn [flat_map fst snd app]. apply IH; intros x Hx; apply He; right; exact Hx. }
+  rewrite E2, app_nil_r. clear E2 He.
+  induction dn as [|[s rs] dn IH]; [reflexivity|].
+  cbn [done_files map flat_map fst snd]. rewrite (Hd s (or_introl eq_refl)). cbn [app]. f_equal.
+  apply IH; intros x Hx; apply Hd; right; exact Hx.
+Qed.
+
+Theorem recover_log : forall d t, Inv d t -> recovered_log (recover d) ++ t_buf t = t_log t.
+Proof.
+  intros d t I. pose proof I as I0. destruct I as [[fl [Hw Hm]] C M SG L P SS ST].
+  unfold recovered_log, recover; cbn [s_src].
+  rewrite concat_rev_src.
+  (* tables *)
+  assert (Es : sst_chunks d (mapply_all (d_man d)) = map snd (t_done t)).
+  { unfold sst_chunks. rewrite ST. apply sst_chunks_done.
+    - intros x Hx. rewrite SS. apply mem_b_In, Hx.
+    - intros [k o] Hx. unfold inprog in Hx. destruct (t_imm t) as [|[s rs] imm'] eqn:Ei; [destruct Hx|].
+      destruct (t_fl t =? 1) eqn:E1; [destruct Hx as [Hx|[]]; inversion Hx; exact I|].
+      destruct (t_fl t =? 2) eqn:E2; [|destruct Hx].
+      destruct Hx as [Hx|[]]; inversion Hx; subst k o. cbn [fst snd].
+      rewrite SS. apply N.eqb_eq in E2.
+      destruct (mem_b s (ids (t_done t))) eqn:Em; [|reflexivity].
+      apply mem_b_In in Em. exfalso. eapply (head_notin_done d t); eauto. lia. }
+  (* WAL segments *)
+  assert (Ew : concat (wal_chunks d (mapply_all (d_man d))) = recs (pending t) ++ fl).
+  { unfold wal_chunks. rewrite Hw, flat_map_app, concat_app, P.
+    assert (Hlt : forall x, In x (ids (pending t) ++ [t_act t]) -> last_id (t_done t) < x).
+    { intros x Hx. unfold last_id. eapply chain_last_lt; [exact C|exact Hx]. }
+    f_equal.
+    - destruct (pending_cases t SG) as [[Hne Hp]|[He [s [r [rs [imm' [done' [Hi [Hd Hp]]]]]]]]].
+      + rewrite <- Hp. apply (concat_wchunk_live (last_id (t_done t))). intros x Hx; apply Hlt, in_or_app; left; exact Hx.
+      + assert (Els : last_id (t_done t) = s) by (rewrite Hd; apply last_id_app).
+        rewrite Hi, Hp, Els in *. cbn [flat_map]. rewrite concat_app. cbn [fst snd]. rewrite N.ltb_irrefl. cbn [concat app].
+        apply (concat_wchunk_live s). intros x Hx; apply Hlt, in_or_app; left; exact Hx.
+    - cbn [flat_map fst snd]. assert (E : last_id (t_done t) <? t_act t = true).
+      { apply N.ltb_lt, Hlt, in_or_app; right; left; reflexivity. }
+      rewrite E, app_nil_r. destruct fl; cbn; [reflexivity|rewrite app_nil_r; reflexivity]. }
+  rewrite Es, Ew, L. fold (recs (t_done t)). rewrite <- Hm, <- !app_assoc. reflexivity.
+Qed.
+
+
+(** every acknowledged record has left the userland buffer (SyncWrites: the acknowledgement
+    is [MSyncAck], never a bare [MAck]) *)
+Definition AckInv (st : mstate) : Prop :=
+  (N.to_nat (t_ackpos (snd st)) + length (t_buf (snd st)) <= length (t_log (snd st)))%nat.
+
+Definition not_plain_ack (m : mop) : bool := match m with MAck => false | _ => true end.
+
+Lemma flush_k_buf : forall k d t, (k <= length (t_buf t))%nat ->
+  (length (t_buf (snd (fst (flush_k k d t)))) <= length (t_buf t))%nat /\
+  t_log (snd (fst (flush_k k d t))) = t_log t /\ t_ackpos (snd (fst (flush_k k d t))) = t_ackpos t /\
+  (k = length (t_buf t) -> t_buf (snd (fst (flush_k k d t))) = []).
+Proof.
+  intros k d t Hk. destruct k as [|k]; cbn [flush_k fst snd].
+  - repeat split; try lia. intro H. symmetry in H. apply length_zero_iff_nil in H. exact H.
+  - cbn [with_buf t_buf t_log t_ackpos]. repeat split.
+    + rewrite skipn_length; lia.
+    + intro H. rewrite H. apply skipn_all.
+Qed.
+
+Lemma exec_ackinv : forall st m, not_plain_ack m = true -> AckInv st -> AckInv (fst (exec st m)).
+Proof.
+  intros [d t] m Hm A. unfold AckInv in *. cbn [fst snd] in A.
+  destruct m; try discriminate; cbn [exec]; cbn [fst snd with_vact with_ptrs with_logged with_imm t_buf t_log t_ackpos]; try exact A.
+  - (* MHead *) destruct (match fget N.eqb b (t_logged t) with Some g => g =? vact_of t b | None => false end); cbn [fst snd with_logged t_buf t_log t_ackpos]; exact A.
+  - (* MFlushBuf *) destruct (flush_k_buf (length (t_buf t)) d t (le_n _)) as [H1 [H2 [H3 _]]]. rewrite H2, H3. eapply Nat.le_trans; [apply Nat.add_le_mono_l, H1|exact A].
+  - (* MNewSeg *) destruct (t_buf t) eqn:E; cbn [fst snd t_buf t_log t_ackpos]; [exact A|rewrite E; exact A].
+  - (* MBuf *)
+    destruct (if e_loc e =? 0 then (None, t_ptrs t) else take_ptr (e_key e, e_vid e) (t_ptrs t)) as [p ptrs'].
+    cbn [fst snd t_buf t_log t_ackpos]. rewrite !app_length. cbn [length]. lia.
+  - (* MSpill *) destruct (flush_k_buf (pred (length (t_buf t))) d t (Nat.le_pred_l _)) as [H1 [H2 [H3 _]]]. rewrite H2, H3. eapply Nat.le_trans; [apply Nat.add_le_mono_l, H1|exact A].
+  - (* MSync *) destruct (flush_k_buf (length (t_buf t)) d t (le_n _)) as [H1 [H2 [H3 _]]]. rewrite H2, H3. eapply Nat.le_trans; [apply Nat.add_le_mono_l, H1|exact A].
+  - (* MSyncAck *)
+    destruct (flush_k_buf (length (t_buf t)) d t (le_n _)) as [H1 [H2 [H3 H4]]].
+    destruct (flush_k (length (t_buf t)) d t) as [[d' t'] oe]. cbn [fst snd] in *.
+    cbn [t_buf t_log t_ackpos]. rewrite (H4 eq_refl). cbn [length]. lia.
+  - (* MSstCreate *) destruct (t_imm t) as [|[s [|r rs]] imm']; cbn [fst snd]; try exact A. destruct (t_fl t); cbn [fst snd]; exact A.
+  - (* MSstFill *) destruct (t_imm t) as [|[s [|r rs]] imm']; cbn [fst snd]; try exact A. destruct (t_fl t) as [|[p|p|]]; cbn [fst snd]; exact A.
+  - (* MFlushMan *) destruct (t_imm t) as [|[s [|r rs]] imm']; cbn [fst snd]; try exact A. destruct (t_fl t) as [|[p|[p|p|]|]]; cbn [fst snd t_buf t_log t_ackpos]; exact A.
+  - (* MFlushWalRm *) destruct (t_imm t) as [|[s [|r rs]] imm']; cbn [fst snd]; try exact A.
+    + destruct (t_fl t); cbn [fst snd]; exact A.
+    + destruct (t_fl t) as [|[[p|p|]|p|]]; cbn [fst snd]; exact A.
+Qed.
+
+Lemma exec_all_ackinv : forall ms st, forallb not_plain_ack ms = true -> AckInv st -> AckInv (exec_all ms st).
+Proof.
+  induction ms as [|m ms IH]; intros st Hf A; [exact A|].
+  cbn [forallb] in Hf. apply andb_true_iff in Hf. destruct Hf as [Hm Hf].
+  unfold exec_all; cbn [fold_left]. apply IH; [exact Hf|]. apply exec_ackinv; assumption.
+Qed.
+
+Lemma forallb_firstn : forall (A : Type) (f : A -> bool) n l, forallb f l = true -> forallb f (firstn n l) = true.
+Proof.
+  intros A f n; induction n as [|n IH]; intros l H; [reflexivity|].
+  destruct l as [|a l]; [reflexivity|]. cbn [forallb firstn] in *. apply andb_true_iff in H. destruct H as [H1 H2].
+  rewrite H1. cbn [andb]. apply IH, H2.
+Qed.
+
+Lemma forallb_flat_map : forall (A B : Type) (f : B -> bool) (g : A -> list B) l,
+  (forall a, forallb f (g a) = true) -> forallb f (flat_map g l) = true.
+Proof.
+  intros A B f g l H; induction l as [|a l IH]; [reflexivity|]. cbn [flat_map]. rewrite forallb_app, H, IH. reflexivity.
+Qed.
+
+Lemma vlog_phase_no_ack : forall es border, forallb not_plain_ack (vlog_phase es border) = true.
+Proof.
+  intros. unfold vlog_phase. apply forallb_flat_map; intro b. apply forallb_flat_map; intro e.
+  destruct (e_loc e =? b + 1); [|reflexivity]. destruct (e_vrot e); reflexivity.
+Qed.
+
+Lemma heads_no_ack : forall l, forallb not_plain_ack (map MHead l) = true.
+Proof. induction l; [reflexivity|assumption]. Qed.
+
+Lemma apply_phase_no_ack : forall es, forallb not_plain_ack (apply_phase es) = true.
+Proof.
+  intros. unfold apply_phase. apply forallb_flat_map; intro e. destruct (e_mrot e), (e_spill e); reflexivity.
+Qed.
+
+Lemma request_no_ack : forall sync es border hord, forallb not_plain_ack (request_mops sync es border hord) = true.
+Proof.
+  intros. unfold request_mops. rewrite !forallb_app, vlog_phase_no_ack, heads_no_ack, apply_phase_no_ack.
+  destruct sync; reflexivity.
+Qed.
+
+Lemma compile_sync_no_ack : forall w, forallb not_plain_ack (compile true w) = true.
+Proof.
+  intro w. unfold compile. apply forallb_flat_map. intros [es border hord| | |fids lvl|b f es border hord]; cbn [compile_step]; try reflexivity.
+  - unfold client_request_mops. rewrite !forallb_app, vlog_phase_no_ack, heads_no_ack, apply_phase_no_ack. reflexivity.
+  - rewrite forallb_app, request_no_ack. destruct es; reflexivity.
+Qed.
+
+Lemma firstn_app_le : forall (A : Type) n (a b : list A), (n <= length a)%nat -> firstn n (a ++ b) = firstn n a.
+Proof.
+  intros A n a b H. rewrite firstn_app. replace (n - length a)%nat with 0%nat by lia. cbn [firstn]. apply app_nil_r.
+Qed.
+
+(** C09 at record granularity *)
+Theorem acked_recovered : forall w p seg nb, 0 < seg ->
+  let st := state_at p (compile true w) (init seg nb) in
+  let n := N.to_nat (t_ackpos (snd st)) in
+  (n <= length (recovered_log (recover (crash st))))%nat /\
+  firstn n (recovered_log (recover (crash st))) = firstn n (t_log (snd st)).
+Proof.
+  intros w p seg nb Hs st n.
+  assert (I : InvS st) by (apply state_at_inv, Hs).
+  assert (A : AckInv st).
+  { unfold st, state_at. apply exec_all_ackinv; [apply forallb_firstn, compile_sync_no_ack|].
+    unfold AckInv, init; cbn. lia. }
+  pose proof (recover_log _ _ I) as R. unfold crash. unfold AckInv in A. fold n in A.
+  assert (Hlen : (n <= length (recovered_log (recover (fst st))))%nat).
+  { apply (f_equal (@length rec)) in R. rewrite app_length in R. lia. }
+  split; [exact Hlen|]. rewrite <- R. symmetry. apply firstn_app_le, Hlen.
+Qed.
+
+(** C10 at record granularity: for every sequence of micro-operations *)
+Theorem recovered_log_prefix : forall ms p seg nb, 0 < seg ->
+  let st := state_at p ms (init seg nb) in
+  recovered_log (recover (crash st)) ++ t_buf (snd st) = t_log (snd st).
+Proof. intros ms p seg nb Hs st. apply recover_log. apply (state_at_inv p ms seg nb Hs). Qed.
+
+(** C11 without GC: flushes and the L0 move keep every read *)
+Definition is_gc (m : maint) : bool := match m with MtGc _ _ => true | _ => false end.
+
+Theorem maint_no_gc_stable : forall ms s k, forallb (fun m => negb (is_gc m)) ms = true -> get (maint_all ms s) k = get s k.
+Proof.
+  induction ms as [|m ms IH]; intros s k H; [reflexivity|].
+  cbn [forallb] in H. apply andb_true_iff in H. destruct H as [Hm H].
+  unfold maint_all; cbn [fold_left]. fold (maint_all ms (maint_step s m)). rewrite (IH _ _ H).
+  destruct m; try discriminate; reflexivity.
+Qed.
+
+(** non-vacuity: after the whole F13 workload both records are acknowledged and recovered;
+    at the crash point of the refutation one record is recovered and none acknowledged *)
+Lemma acked_example :
+  let st := state_at 6 (compile true w13) (init 1 1) in
+  (t_ackpos (snd st), length (recovered_log (recover (crash st)))) = (2, 2%nat).
+Proof. vm_compute. reflexivity. Qed.
+
+Lemma prefix_example :
+  let st := state_at 3 (compile true w13) (init 1 1) in
+  (length (recovered_log (recover (crash st))), length (t_buf (snd st)), length (t_log (snd st))) = (1%nat, 0%nat, 1%nat).
+Proof. vm_compute. reflexivity. Qed.
+
+Lemma maint_example :
+  get (maint_all [MtFlushAll; MtMove] s11) 1 = OV 2 /\ forallb (fun m => negb (is_gc m)) [MtFlushAll; MtMove] = true.
+Proof. split; vm_compute; reflexivity. Qed.
